@@ -4,7 +4,7 @@ from ..refs import c05_tankgen as G
 
 ID = 'C06'
 LEVEL = 'exploration'
-CASES = {'quick': 320, 'thorough': 6000}
+CASES = {'quick': 640, 'thorough': 6000}
 CASE_TIMEOUT = 20
 SHRINK_BUDGET = {'quick': 40, 'thorough': 240}
 TECHNIQUE = ('property-based testing (Hypothesis): generated tank networks simulated with WNTRSimulator (report step '
@@ -27,7 +27,8 @@ TOLERANCES = {'volume_identity': '1e-7*|q*dt| + 1e-9*A m3 (float noise of head-e
               'init_level_abs': 1e-9,
               'limit_band': '2 s * |net inflow of the previous row| / A + 1.5e-4 m (statement: about two seconds of flow; '
                             'Htol = 1.524e-4 m is the reopening hysteresis of the tank controls); a level that already lay '
-                            'beyond the limit in the previous row and has not moved further out was judged when it got there',
+                            'beyond the limit in the previous row was judged when it got there and may have moved on by at '
+                            'most Qtol*dt/A (a flow within Qtol counts as no flow in the third clause)',
               'no_discharge_at_min / no_fill_at_max': 'Qtol = 2.83168e-6 m3/s (WNTRSimulator._Qtol), premise '
                                                       'level <= min + 1e-12 / level >= max - 1e-12',
               }
@@ -101,8 +102,10 @@ def tank_checks(case, run, tags):
                         band = 2.0 * abs(q[k - 1]) / a_eff + 1.5e-4
                         if over > 1e-9:
                             tags.append('beyond_%s' % side)
-                        # a level that already lay beyond the limit and has not moved further was judged when it got there
-                        if not over <= band and not over <= sgn * (lv[k - 1] - lim) + 1e-12:
+                        # a level that already lay beyond the limit was judged when it got there; since then it may only
+                        # have moved by what a flow within the flow tolerance (which counts as no flow) carries
+                        creep = G.QTOL * (times[k] - times[k - 1]) / a_eff + 1e-12
+                        if not over <= band and not over <= sgn * (lv[k - 1] - lim) + creep:
                             return (_limit_bucket('limit_overshoot/' + side, kind, _via(case, run, tk, k - 1, sgn)),
                                     'tank %s t=%d: level %.9g is %.6g beyond %s_level %.6g, allowed 2 s*|q_prev|/A+1.5e-4 = '
                                     '%.6g (q_prev=%.6g at t=%d, A=%.4g)' % (name, times[k], lv[k], over, side, lim, band,
